@@ -132,6 +132,21 @@ else:
     _b = m.group(1)
     extra_text.append("Definition C16_RDBUF_PULLUP_FIRST : bool := %s.  (* http_rd_buf REQ: http_buf_pull_up precedes the rd_put == bufsz test *)"
                       % ("true" if _b.index("http_buf_pull_up(conn);") < _b.index("conn->rd_put == conn->bufsz") else "false"))
+# http_rd_buf, HTTP_RD_FULL / HTTP_RD_RAW: the loop that serves a multi-element read from the buffer (Codec/HttpIov.v
+# `consume`), and which vector the physical read is given (`rd_vector fixed`)
+m = re.search(r"case HTTP_RD_FULL:(.*?)case HTTP_RD_DISCARD:", _hc, re.S)
+_need = ["memcpy(iov[0].iov_buf, rbuf, n);", "iov[0].iov_len -= n;", "NNI_INCPTR(iov[0].iov_buf, n);", "conn->rd_get += n;",
+         "rbuf += n;", "nni_aio_bump_count(aio, n);", "cnt -= n;", "nni_aio_set_iov(aio, nio, iov);",
+         "nni_aio_set_iov(&conn->rd_aio, nio, iov);"]
+if not m or any(x not in m.group(1) for x in _need):
+    missing.append("HTTP_RD_FULL buffer-to-iov loop of http_rd_buf (shape modelled by Codec/HttpIov.v consume): " +
+                   ", ".join(x for x in _need if not m or x not in m.group(1)))
+    extra_text.append("Definition C16_RDBUF_IOV_REFETCH : bool := false.  (* pattern not found: default *)")
+else:
+    _b = m.group(1)
+    _i0, _i1 = _b.index("nni_aio_set_iov(aio, nio, iov);"), _b.index("nni_aio_set_iov(&conn->rd_aio, nio, iov);")
+    extra_text.append("Definition C16_RDBUF_IOV_REFETCH : bool := %s.  (* http_rd_buf fetches the user aio's vector again before the physical read *)"
+                      % ("true" if "nni_aio_get_iov(aio, &nio, &iov);" in _b[_i0:_i1] else "false"))
 m = re.search(r"case HTTP_RD_RES:(.*?)case HTTP_RD_CHUNK:", _hc, re.S)
 if not m or not re.search(r"http_buf_pull_up\(conn\);.*iov1\.iov_len == 0\) \{\s*return \(NNG_EMSGSIZE\);", m.group(1), re.S):
     missing.append("HTTP_RD_RES buffer policy (pull-up, EMSGSIZE when full) in http_conn.c")
